@@ -12,6 +12,9 @@ from core import AnalysisBroken
 from domains import KB, KBEval, type_info
 from rules import jit
 from rules.a64sem import Exec
+import os as _os
+
+STRICT_FAMILY = bool(_os.environ.get('RXVERIF_STRICT_FAMILY'))
 
 M64 = (1 << 64) - 1
 
@@ -302,6 +305,9 @@ HANDLERS = ('IADD_RS', 'ISUB_R', 'IMUL_R', 'IMULH_R', 'ISMULH_R', 'INEG_R', 'IXO
 
 
 def rule_hsem(ctx, R):
+    if STRICT_FAMILY:
+        R.note('rule_hsem skipped: RXVERIF_STRICT_FAMILY=1 (emitted-code / executor evaluation on terms switched off, see DESIGN.md 9.2)')
+        return
     F, hs = jit.handlers(ctx, 'a64')
     cls = 'randomx::JitCompilerA64'
     R.rule('A64-HSEM', 'for the ten integer register-form instructions the words the A64 handler emits, given their architectural meaning on a register file of terms over r0..r7, leave in the eight VM registers exactly the '
@@ -386,6 +392,9 @@ def run_handler(F, cls, h, ip, d, s, sh, imm, nlit, regmap):
 
 
 def rule_ss_hsem(ctx, R):
+    if STRICT_FAMILY:
+        R.note('rule_ss_hsem skipped: RXVERIF_STRICT_FAMILY=1 (emitted-code / executor evaluation on terms switched off, see DESIGN.md 9.2)')
+        return
     """SuperscalarHash emitter of the A64 back-end: the switch inside generateSuperscalarHash (IMUL_RCP excluded: its multiplier is loaded from the literal pool)"""
     from rules import x86hsem as X
     from astq import walk
@@ -511,6 +520,9 @@ MEM_HANDLERS = ('IADD_M', 'ISUB_M', 'IMUL_M', 'IMULH_M', 'ISMULH_M', 'IXOR_M', '
 
 
 def rule_mem_hsem(ctx, R):
+    if STRICT_FAMILY:
+        R.note('rule_mem_hsem skipped: RXVERIF_STRICT_FAMILY=1 (emitted-code / executor evaluation on terms switched off, see DESIGN.md 9.2)')
+        return
     from rules import x86hsem as X
     F, hs = jit.handlers(ctx, 'a64')
     cls = 'randomx::JitCompilerA64'
